@@ -77,7 +77,7 @@ func newLifeWorld() *lifeWorld {
 		w.docs[x] = jdoc.New(x, lifeDocText[x])
 	}
 	w.en = enum.New("@e", "[1, \"a\", null] // c")
-	w.re = regex.New("@r", "/ab+/")
+	w.re = regex.New("@r", "/[a-c]{4}b+[x-z]/")
 	return w
 }
 
